@@ -8,6 +8,7 @@
 #include <cstring>
 #include <dirent.h>
 #include <dlfcn.h>
+#include <execinfo.h>
 #include <fcntl.h>
 #include <map>
 #include <set>
@@ -101,14 +102,23 @@ static void Push(LogOp&& op)
 }
 
 /** returns true if the current op must fail with errno set; kinds: 'w' write, 's' sync, 'f' fallocate */
-static bool FaultNow(char cls, int& err, size_t* short_len = nullptr)
+static std::string g_exempt_substr;       //!< write faults pass over write()s issued from inside fwrite() to paths containing this
+static thread_local int t_in_fwrite = 0;
+static bool FaultNow(char cls, int& err, size_t* short_len = nullptr, const std::string* rel = nullptr, size_t n = 0)
 {
     if (g_fault == FaultKind::NONE || g_fault_fired) return false;
+    if (cls == 'w' && rel && t_in_fwrite && !g_exempt_substr.empty() && rel->find(g_exempt_substr) != std::string::npos) return false;
     bool match = (cls == 'w' && (g_fault == FaultKind::ENOSPC_WRITE || g_fault == FaultKind::EIO_WRITE || g_fault == FaultKind::SHORT_WRITE)) ||
                  (cls == 's' && g_fault == FaultKind::EIO_SYNC) || (cls == 'f' && g_fault == FaultKind::ENOSPC_FALLOC);
     if (!match) return false;
     if (g_fault_countdown-- > 0) return false;
     g_fault_fired = true;
+    if (getenv("VERIF_SIMFS_FAULT_DEBUG")) {
+        fprintf(stderr, "simfs: fault fires cls=%c path=%s len=%zu\n", cls, rel ? rel->c_str() : "-", n);
+        void* bt[40];
+        int nb = backtrace(bt, 40);
+        backtrace_symbols_fd(bt, nb, 2);
+    }
     if (g_fault == FaultKind::SHORT_WRITE) {
         if (short_len) *short_len = 1;
         return false;
@@ -131,6 +141,7 @@ void Arm(const std::string& root)
     for (auto& f : g_fds) f = FdInfo{};
     g_fault = FaultKind::NONE;
     g_fault_fired = false;
+    g_exempt_substr.clear();
     g_armed = true;
 }
 SavedLog TakeLog()
@@ -232,6 +243,7 @@ const std::vector<LogOp>& Log() { return g_log; }
 uint64_t OpsFromOtherThreads() { return g_other_thread_ops; }
 void SetFault(FaultKind kind, uint64_t after_ops) { Guard g; g_fault = kind; g_fault_countdown = (int64_t)after_ops; g_fault_fired = false; }
 bool FaultFired() { return g_fault_fired; }
+void SetFwriteFaultExempt(const std::string& path_substr) { Guard g; g_exempt_substr = path_substr; }
 void ClearFault() { Guard g; g_fault = FaultKind::NONE; g_fault_fired = false; }
 
 std::vector<size_t> BoundaryPoints()
@@ -501,7 +513,7 @@ ssize_t write(int fd, const void* buf, size_t n)
     size_t short_len = 0;
     {
         Guard g;
-        if (FaultNow('w', err, &short_len)) { errno = err; return -1; }
+        if (FaultNow('w', err, &short_len, &fi.rel, n)) { errno = err; return -1; }
     }
     if (short_len && n > 1) n = std::max<size_t>(1, n / 2);
     uint64_t off;
@@ -526,7 +538,7 @@ static ssize_t PwriteCommon(int fd, const void* buf, size_t n, off64_t off)
     size_t short_len = 0;
     {
         Guard g;
-        if (FaultNow('w', err, &short_len)) { errno = err; return -1; }
+        if (FaultNow('w', err, &short_len, &fi.rel, n)) { errno = err; return -1; }
     }
     if (short_len && n > 1) n = std::max<size_t>(1, n / 2);
     ssize_t w = r(fd, buf, n, off);
@@ -717,6 +729,14 @@ static FILE* FopenCommon(const char* p, const char* m)
     Guard g;
     g_files[f] = fd;
     return f;
+}
+size_t fwrite(const void* b, size_t sz, size_t n, FILE* f)
+{
+    static auto r = Real<size_t (*)(const void*, size_t, size_t, FILE*)>("fwrite");
+    ++t_in_fwrite;
+    size_t rc = r(b, sz, n, f);
+    --t_in_fwrite;
+    return rc;
 }
 FILE* fopen(const char* p, const char* m) { return FopenCommon(p, m); }
 FILE* fopen64(const char* p, const char* m) { return FopenCommon(p, m); }
